@@ -354,6 +354,20 @@ def run(ctx):
             scan(Walker(b).walk(h, start_is_header=True))
         ok = bool(srcs) and srcs <= {"empty", "reify(absorbing)"}
         ck.ob("C15-R2", fn, "absorbing-is-empty-or-reified-from-the-mapping's-own-absorbing-list", ok, detail=str(sorted(srcs)))
+    # ---------------- R3: the reload converts every saved (plain, alias-free) mapping into exactly one mapping, in
+    # order, with its own keys: the structural clauses of the conversion pipeline that a plain mapping goes through
+    # (convert's pass S5, convert_single S6, plain-key branches of S2/S3/S4) hold on this tree
+    from ..report import Check
+    from . import c13s
+    sub = Check("C13", quiet=True)
+    from ..ctx import Ctx
+    sctx = Ctx(ctx.F, sub, ctx.tier)
+    for f in (c13s.s2_from_modifiers, c13s.s3_reify_modifiers, c13s.s4_translate, c13s.s5_convert, c13s.s6_convert_single):
+        f(sctx, sub)
+    bad = [v["key"] for v in sub.violations]
+    ck.ob("C15-R3", "fancy_layout_interpreting::convert", "a-saved-mapping-reloads-as-exactly-one-mapping,in-place(conversion-pipeline-clauses-S2-S6)", not bad,
+          detail=None if not bad else bad[0][:220])
+    ck.analysed["conversion_clauses_rerun"] = len(sub.obligations)
 
 
 def _absorb_src(ab):
